@@ -83,7 +83,7 @@ CHECKS["C05"] = dict(level="exploration", design="4/C05", engine="cmake-differen
     note="Trusts CMake 3.25.1 as the lexical judge and vlib/ref_lexer.py (itself compared with CMake on every sampled file). Only flat sequences of calls to no-op functions can be executed by cmake -P. Legacy unquoted arguments are outside the guarantee.")
 CHECKS["C19"] = dict(level="exploration", design="4/C19", engine="sandbox-and-walk-model",
     technique="differential testing over generated inputs and extra-argument lists: cmake -P driving cminx_gen_rst() with an argv-logging wrapper vs the direct CLI run",
-    text="A generated driver script calls cminx_gen_rst() through `cmake -P` with CMINX_EXECUTABLE bound to a wrapper that logs argv and runs the working-tree CMinx; logged argv must be input, '-r' iff directory, the extras verbatim (spaces, unicode, quotes, dollars, backslashes) and '-o output'; the output tree must be byte-identical to the direct CLI run; cmake must fail (no marker file) iff the direct run fails (missing path, syntax error, faulty file in a directory).",
+    text="A generated driver script calls cminx_gen_rst() through `cmake -P` with CMINX_EXECUTABLE bound to a wrapper that logs argv and runs the working-tree CMinx; logged argv must be input, '-r' iff directory, the extras verbatim (spaces, unicode, quotes, dollars, backslashes) and '-o output'; the output tree must be byte-identical to the direct CLI run; cmake must fail (no marker file) iff the direct run fails (missing path, syntax error, faulty file in a directory); also project mode (configure from another working directory, call in an add_subdirectory level). Known finding P19 (an extra argument spelled like an execute_process() keyword) is reported as KNOWN-FINDING; its consequences are skipped only inside that region.",
     note=SBX_NOTE + " CMake 3.25.1 executes cmake/cminx.cmake from the tree under test; values contain no ';'.")
 CHECKS["C06"] = dict(level="fault_enumeration", design="4/C06", engine="cmake-differential-and-reference-lexer",
     technique="fault injection over generated modules: fault kind x token-boundary position (drawn in quick, enumerated in thorough), classified by a reference lexer, judged on exit status / written pages / skipped-character monitor",
